@@ -21,6 +21,7 @@ fn groups_for(prop: &str, ctx: &Ctx) -> Vec<Box<dyn Group>> {
         "C01" => vec![Box::new(c01::PathOk), Box::new(c01::San), Box::new(c01::Read::new(ctx))],
         "C07" => vec![Box::new(c07::Request1)],
         "C06" => vec![Box::new(c06::ListHeader), Box::new(c06::Negotiation::new())],
+        "C03" | "C04" => vec![Box::new(c03::History)],
         _ => vec![],
     }
 }
